@@ -637,10 +637,12 @@ impl NodeManage {
         } else {
             let index = hash_value % nodes.len();
             let node = nodes.get(index).unwrap();
+            // the number is used as the owner's cluster id (instance.from_cluster, AddClientId), so it is the node id,
+            // not the position among the valid nodes
             if node.is_local {
-                NamingRouteAddr::Local(index as u64)
+                NamingRouteAddr::Local(node.id)
             } else {
-                NamingRouteAddr::Remote(index as u64, node.addr.clone())
+                NamingRouteAddr::Remote(node.id, node.addr.clone())
             }
         }
     }
